@@ -99,6 +99,14 @@ func c13install() {
 		c13.linkAt[newpath] = ino.written
 		return nil
 	}
+	unix.VerifHookUnlink = func(path string) error {
+		if _, ok := c13.links[path]; !ok {
+			return unix.ENOENT
+		}
+		delete(c13.links, path)
+		delete(c13.linkAt, path)
+		return nil
+	}
 	unix.VerifHookFdatasync = func(fd int) error {
 		ino := c13ino(fd)
 		vrt.Assert(ino != nil && ino.open, "sync of an open descriptor")
